@@ -92,71 +92,91 @@ func newDWorld(sc *DScenario, rec *ab.Recorder, stats map[string]int) *dworld {
 	conn.PlugIn(w.dma.ToCP)
 	conn.PlugIn(w.dma.ToMem)
 	w.hooks()
-	w.emit("Reset", ab.Rec{"line": 1 << sc.Line, "caches": sc.Caches, "msize": sc.MSize, "tag": sc.Tag})
+	w.emit("Reset", ab.Rec{"line": 1 << sc.Line, "caches": sc.Caches, "msize": sc.MSize, "tag": sc.Tag,
+		"dmadst": "DMA.ToCP", "memdst": "Mem.Top"})
 	return w
 }
 
-func copyFields(m sim.Msg) (string, int, int, []int) {
+// dmaTap receives the port events of one command processor + DMA engine pair.
+type dmaTap struct {
+	emit   func(e string, f ab.Rec)
+	id     func(space, msgID string) int // first-seen numbering
+	known  func(space, msgID string) int // -1 if never seen
+	addr   func(a uint64) int            // address as logged (rebased on the platforms)
+	filter bool                          // ignore traffic that is not a copy or a flush (platform worlds)
+}
+
+func (t *dmaTap) copyFields(m sim.Msg) (string, int, int, []int) {
 	switch r := m.(type) {
 	case *protocol.MemCopyH2DReq:
-		return "h2d", int(r.DstAddress), len(r.SrcBuffer), ints(r.SrcBuffer)
+		return "h2d", t.addr(r.DstAddress), len(r.SrcBuffer), ints(r.SrcBuffer)
 	case *protocol.MemCopyD2HReq:
-		return "d2h", int(r.SrcAddress), len(r.DstBuffer), []int{}
+		return "d2h", t.addr(r.SrcAddress), len(r.DstBuffer), []int{}
 	case *protocol.FlushReq:
 		return "flush", 0, 0, []int{}
 	}
 	return fmt.Sprintf("other:%T", m), 0, 0, []int{}
 }
 
-func (w *dworld) hooks() {
-	id := func(space string, m sim.Msg) int { return w.rec.ID(space, m.Meta().ID) }
-	known := func(space, s string) int {
-		if v, ok := w.rec.Known(space, s); ok {
-			return v
-		}
-		return -1
+func isCopyOrFlush(m sim.Msg) bool {
+	switch m.(type) {
+	case *protocol.MemCopyH2DReq, *protocol.MemCopyD2HReq, *protocol.FlushReq:
+		return true
 	}
-	w.cp.ToDriver.AcceptHook(ab.HookFn(func(ctx sim.HookCtx) {
+	return false
+}
+
+func attachDMATap(c *cp.CommandProcessor, dma *cp.DMAEngine, t *dmaTap) {
+	c.ToDriver.AcceptHook(ab.HookFn(func(ctx sim.HookCtx) {
 		m, ok := ctx.Item.(sim.Msg)
 		if !ok {
 			return
 		}
 		switch ctx.Pos {
 		case sim.HookPosPortMsgRecvd:
-			k, a, n, d := copyFields(m)
-			w.emit("DrvReq", ab.Rec{"id": id("drv", m), "k": k, "a": a, "n": n, "d": d})
+			if t.filter && !isCopyOrFlush(m) {
+				return
+			}
+			k, a, n, d := t.copyFields(m)
+			t.emit("DrvReq", ab.Rec{"id": t.id("drv", m.Meta().ID), "k": k, "a": a, "n": n, "d": d})
 		case sim.HookPosPortMsgRetrieveIncoming:
-			w.emit("CPTake", ab.Rec{"id": id("drv", m)})
+			if t.filter && !isCopyOrFlush(m) {
+				return
+			}
+			t.emit("CPTake", ab.Rec{"id": t.id("drv", m.Meta().ID)})
 		case sim.HookPosPortMsgSend:
 			if r, ok := m.(*sim.GeneralRsp); ok {
-				k, _, _, _ := copyFields(r.OriginalReq)
+				if t.filter && !isCopyOrFlush(r.OriginalReq) {
+					return
+				}
+				k, _, _, _ := t.copyFields(r.OriginalReq)
 				d := []int{}
 				if q, ok := r.OriginalReq.(*protocol.MemCopyD2HReq); ok {
 					d = ints(q.DstBuffer)
 				}
-				w.emit("CPDone", ab.Rec{"id": known("drv", r.OriginalReq.Meta().ID), "k": k, "d": d,
+				t.emit("CPDone", ab.Rec{"id": t.known("drv", r.OriginalReq.Meta().ID), "k": k, "d": d,
 					"dst": string(m.Meta().Dst)})
-			} else {
-				w.emit("CPOther", ab.Rec{"t": fmt.Sprintf("%T", m)})
+			} else if !t.filter {
+				t.emit("CPOther", ab.Rec{"t": fmt.Sprintf("%T", m)})
 			}
 		}
 	}))
-	w.cp.ToDMA.AcceptHook(ab.HookFn(func(ctx sim.HookCtx) {
+	c.ToDMA.AcceptHook(ab.HookFn(func(ctx sim.HookCtx) {
 		m, ok := ctx.Item.(sim.Msg)
 		if !ok {
 			return
 		}
 		switch ctx.Pos {
 		case sim.HookPosPortMsgSend:
-			k, a, n, d := copyFields(m)
-			w.emit("CPFwd", ab.Rec{"id": id("dma", m), "k": k, "a": a, "n": n, "d": d, "dst": string(m.Meta().Dst)})
+			k, a, n, d := t.copyFields(m)
+			t.emit("CPFwd", ab.Rec{"id": t.id("dma", m.Meta().ID), "k": k, "a": a, "n": n, "d": d, "dst": string(m.Meta().Dst)})
 		case sim.HookPosPortMsgRetrieveIncoming:
 			if r, ok := m.(*sim.GeneralRsp); ok {
-				w.emit("CPRecv", ab.Rec{"to": known("dma", r.OriginalReq.Meta().ID)})
+				t.emit("CPRecv", ab.Rec{"to": t.known("dma", r.OriginalReq.Meta().ID)})
 			}
 		}
 	}))
-	w.cp.ToCaches.AcceptHook(ab.HookFn(func(ctx sim.HookCtx) {
+	c.ToCaches.AcceptHook(ab.HookFn(func(ctx sim.HookCtx) {
 		m, ok := ctx.Item.(sim.Msg)
 		if !ok {
 			return
@@ -168,32 +188,32 @@ func (w *dworld) hooks() {
 			if isFlush && (f.InvalidateAllCachelines || f.DiscardInflight || f.PauseAfterFlushing) {
 				inv = 1
 			}
-			w.emit("CacheReq", ab.Rec{"id": id("cache", m), "flush": b2i(isFlush), "inv": inv})
+			t.emit("CacheReq", ab.Rec{"id": t.id("cache", m.Meta().ID), "flush": b2i(isFlush), "inv": inv})
 		case sim.HookPosPortMsgRecvd:
 			if r, ok := m.(*cache.FlushRsp); ok {
-				w.emit("CacheAck", ab.Rec{"to": known("cache", r.RspTo)})
+				t.emit("CacheAck", ab.Rec{"to": t.known("cache", r.RspTo)})
 			}
 		case sim.HookPosPortMsgRetrieveIncoming:
 			if r, ok := m.(*cache.FlushRsp); ok {
-				w.emit("CPAck", ab.Rec{"to": known("cache", r.RspTo)})
+				t.emit("CPAck", ab.Rec{"to": t.known("cache", r.RspTo)})
 			}
 		}
 	}))
-	w.dma.ToCP.AcceptHook(ab.HookFn(func(ctx sim.HookCtx) {
+	dma.ToCP.AcceptHook(ab.HookFn(func(ctx sim.HookCtx) {
 		m, ok := ctx.Item.(sim.Msg)
 		if !ok {
 			return
 		}
 		switch ctx.Pos {
 		case sim.HookPosPortMsgRetrieveIncoming:
-			w.emit("DMATake", ab.Rec{"id": known("dma", m.Meta().ID)})
+			t.emit("DMATake", ab.Rec{"id": t.known("dma", m.Meta().ID)})
 		case sim.HookPosPortMsgSend:
 			if r, ok := m.(*sim.GeneralRsp); ok {
-				w.emit("DMADone", ab.Rec{"to": known("dma", r.OriginalReq.Meta().ID)})
+				t.emit("DMADone", ab.Rec{"to": t.known("dma", r.OriginalReq.Meta().ID)})
 			}
 		}
 	}))
-	w.dma.ToMem.AcceptHook(ab.HookFn(func(ctx sim.HookCtx) {
+	dma.ToMem.AcceptHook(ab.HookFn(func(ctx sim.HookCtx) {
 		m, ok := ctx.Item.(sim.Msg)
 		if !ok {
 			return
@@ -206,25 +226,39 @@ func (w *dworld) hooks() {
 				if r.DirtyMask != nil {
 					mask = 1
 				}
-				w.emit("Sub", ab.Rec{"id": id("sub", m), "k": "w", "a": int(r.Address), "n": len(r.Data), "d": ints(r.Data),
+				t.emit("Sub", ab.Rec{"id": t.id("sub", m.Meta().ID), "k": "w", "a": t.addr(r.Address), "n": len(r.Data), "d": ints(r.Data),
 					"mask": mask, "dst": string(m.Meta().Dst)})
 			case *mem.ReadReq:
-				w.emit("Sub", ab.Rec{"id": id("sub", m), "k": "r", "a": int(r.Address), "n": int(r.AccessByteSize), "d": []int{},
+				t.emit("Sub", ab.Rec{"id": t.id("sub", m.Meta().ID), "k": "r", "a": t.addr(r.Address), "n": int(r.AccessByteSize), "d": []int{},
 					"mask": 0, "dst": string(m.Meta().Dst)})
 			}
 		case sim.HookPosPortMsgRecvd:
 			switch r := m.(type) {
 			case *mem.WriteDoneRsp:
-				w.emit("MemRsp", ab.Rec{"to": known("sub", r.RespondTo), "d": []int{}})
+				t.emit("MemRsp", ab.Rec{"to": t.known("sub", r.RespondTo), "d": []int{}})
 			case *mem.DataReadyRsp:
-				w.emit("MemRsp", ab.Rec{"to": known("sub", r.RespondTo), "d": ints(r.Data)})
+				t.emit("MemRsp", ab.Rec{"to": t.known("sub", r.RespondTo), "d": ints(r.Data)})
 			}
 		case sim.HookPosPortMsgRetrieveIncoming:
 			if r, ok := m.(mem.AccessRsp); ok {
-				w.emit("DMARecv", ab.Rec{"to": known("sub", r.GetRspTo())})
+				t.emit("DMARecv", ab.Rec{"to": t.known("sub", r.GetRspTo())})
 			}
 		}
 	}))
+}
+
+func (w *dworld) hooks() {
+	attachDMATap(w.cp, w.dma, &dmaTap{
+		emit: w.emit,
+		id:   func(space, s string) int { return w.rec.ID(space, s) },
+		known: func(space, s string) int {
+			if v, ok := w.rec.Known(space, s); ok {
+				return v
+			}
+			return -1
+		},
+		addr: func(a uint64) int { return int(a) },
+	})
 }
 
 func (w *dworld) tick(n int) {
